@@ -180,6 +180,104 @@ fn repair(items: &str) -> String {
     format!("{};hot[{}]cold[{}]", if res.is_ok() { "ok" } else { "err" }, store_str(&h), store_str(&c))
 }
 
+// ------------------------------------------------------------------- repair of pack files (`repair_hotcold_packs`)
+
+fn label_id(n: u64) -> Id {
+    let mut b = [0x11u8; 32];
+    b[24..32].copy_from_slice(&n.to_be_bytes());
+    Id::new(b)
+}
+
+/// `c16 repairp <index files> <packs>`: a real hot/cold repository whose index files (`;`-separated, each
+/// `<packs>|<packs_to_delete>`, lists `+`-separated `t<n>` / `d<n>` = pack `n` holding tree / data blobs, `-` empty) are
+/// written through the repository, pack files `n:cold|~:hot|~` put into the two stores directly; then the real
+/// `Repository::repair_hotcold_packs` on a cold-strict cold store.  Observation: the pack files of both stores.
+fn repairp(index: &str, packs: &str) -> String {
+    use rustic_core::repofile::{BlobType, IndexBlob, IndexFile, IndexPack, PackId};
+    let cold = MemBackend::named("cold");
+    let hot = MemBackend::named("hot");
+    let Ok((h, repo)) = RepoHandle::init(cold.clone(), Some(hot.clone()), &ConfigOptions::default()) else { return "err:init".into() };
+    let mut listed_tree: BTreeSet<u64> = BTreeSet::new();
+    for f in index.split(';') {
+        let Some((a, b)) = f.split_once('|') else { return "bad-op".into() };
+        let mut lists: Vec<Vec<IndexPack>> = Vec::new();
+        for l in [a, b] {
+            let mut v = Vec::new();
+            if l != "-" {
+                for tok in l.split('+') {
+                    let (Some(k), Ok(n)) = (tok.chars().next().filter(|c| *c == 't' || *c == 'd'), tok.get(1..).unwrap_or("").parse::<u64>()) else {
+                        return "bad-op".into();
+                    };
+                    if k == 't' {
+                        _ = listed_tree.insert(n);
+                    }
+                    let tpe = if k == 't' { BlobType::Tree } else { BlobType::Data };
+                    let blob = |i: u8| {
+                        let mut id = [i; 32];
+                        id[8..16].copy_from_slice(&n.to_be_bytes());
+                        let o = serde_json::json!({ "id": Id::new(id).to_hex().as_str(), "type": if k == 't' { "tree" } else { "data" }, "offset": u32::from(i) * 40, "length": 40 });
+                        serde_json::from_value::<IndexBlob>(o).expect("index blob json")
+                    };
+                    let _ = tpe;
+                    v.push(IndexPack { id: PackId::from(label_id(n)), blobs: vec![blob(0), blob(1)], time: None, size: None });
+                }
+            }
+            lists.push(v);
+        }
+        let mut file = IndexFile::default();
+        file.packs_to_delete = lists.pop().unwrap();
+        file.packs = lists.pop().unwrap();
+        if rustic_core::verif::repository::save_file(&repo, &file).is_err() {
+            return "oracle-fail:save-index".into();
+        }
+    }
+    let mut labels: Vec<u64> = Vec::new();
+    for it in packs.split(';') {
+        let f: Vec<&str> = it.split(':').collect();
+        let [n, c, ht] = f.as_slice() else { return "bad-op".into() };
+        let Ok(n) = n.parse::<u64>() else { return "bad-op".into() };
+        if labels.contains(&n) {
+            return "bad-op".into();
+        }
+        labels.push(n);
+        for (tok, be) in [(c, &cold), (ht, &hot)] {
+            if **tok != *"~" {
+                let Some(d) = data_of(tok) else { return "bad-op".into() };
+                be.put_raw(FileType::Pack, label_id(n), Bytes::from(d));
+            }
+        }
+    }
+    let cold_before = cold.store();
+    cold.set_cold(true);
+    cold.clear_log();
+    let Ok(repo) = h.open() else { return "err:open".into() };
+    let res = repo.repair_hotcold_packs(false);
+    let (hs, cs) = (hot.store(), cold.store());
+    for (k, v) in &cold_before {
+        if cs.get(k) != Some(v) {
+            return "oracle-fail:repair-changed-a-cold-file".into();
+        }
+    }
+    if let Some(m) = unwarmed_cold_read(&cold) {
+        return format!("{m}-during-repair-hotcold-packs");
+    }
+    // every tree pack the index lists — under `packs` or `packs_to_delete` — and the cold store holds is in the hot store
+    for n in &listed_tree {
+        if let Some(c) = cs.get(&(4, label_id(*n))) {
+            match hs.get(&(4, label_id(*n))) {
+                Some(x) if x.len() == c.len() => {}
+                _ => return "oracle-fail:listed-tree-pack-not-recreated-in-hot".into(),
+            }
+        }
+    }
+    let show = |st: &Store| -> String {
+        let mut v: Vec<String> = labels.iter().filter_map(|n| st.get(&(4, label_id(*n))).map(|b| format!("{n}:{}", digest(b)))).collect();
+        v.sort();
+        if v.is_empty() { "-".into() } else { v.join("+") }
+    };
+    format!("{};hot[{}]cold[{}]", if res.is_ok() { "ok" } else { "err" }, show(&hs), show(&cs))
+}
+
 // ---------------------------------------------------------------------------------- repository level
 
 /// The tree packs of the repository as the COLD STORE saw them being written (`write_bytes(Pack, id, cacheable = true)`),
@@ -481,6 +579,7 @@ pub fn exec(t: &[&str]) -> String {
     guarded(move || match t.iter().map(String::as_str).collect::<Vec<_>>().as_slice() {
         ["hist", steps] => hist(steps),
         ["repair", items] => repair(items),
+        ["repairp", index, packs] => repairp(index, packs),
         ["repo", seed] => seed.parse::<u64>().map_or("bad-op".into(), |s| repo_level(s, false)),
         ["repo-hist", steps, seed] => seed.parse::<u64>().map_or("bad-op".into(), |s| repo_hist(steps, s, false)),
         ["repo-read-data", seed] => seed.parse::<u64>().map_or("bad-op".into(), |s| repo_level(s, true)),
@@ -585,7 +684,56 @@ pub fn generate(thorough: bool, rng: &mut Rng, ops: &mut Vec<String>, stats: &mu
         }
         ops.push(format!("c16 repair {}", items.join(";")));
     }
-    let n_repo = if thorough { 80 } else { 8 };
+    // repair of pack files: index files listing packs under `packs` / `packs_to_delete` (tree or data), pack files
+    // missing in hot / hot-only / truncated / in sync / not listed at all
+    let n_repp = if thorough { 1500 } else { 150 };
+    for _ in 0..n_repp {
+        let np = rng.range(1, 7);
+        // kind of each pack label (consistent over all index files, except for an occasional contradicting listing)
+        let kinds: Vec<char> = (0..np).map(|_| if rng.chance(3, 5) { 't' } else { 'd' }).collect();
+        let nf = rng.range(1, 3) as usize;
+        let mut files: Vec<(Vec<String>, Vec<String>)> = vec![(vec![], vec![]); nf];
+        for n in 0..np as usize {
+            let k = if rng.chance(1, 12) { if kinds[n] == 't' { 'd' } else { 't' } } else { kinds[n] };
+            match rng.below(8) {
+                0 => stats.hit("repairp.unlisted"),
+                1 | 2 | 3 => {
+                    stats.hit(format!("repairp.listed-packs.{k}"));
+                    let f = rng.below(nf as u64) as usize;
+                    files[f].0.push(format!("{k}{n}"));
+                }
+                4 | 5 | 6 => {
+                    stats.hit(format!("repairp.marked-for-deletion.{k}"));
+                    let f = rng.below(nf as u64) as usize;
+                    files[f].1.push(format!("{k}{n}"));
+                }
+                _ => {
+                    stats.hit("repairp.listed-twice");
+                    let (f, g) = (rng.below(nf as u64) as usize, rng.below(nf as u64) as usize);
+                    files[f].0.push(format!("{k}{n}"));
+                    files[g].1.push(format!("{kinds}{n}", kinds = kinds[n]));
+                }
+            }
+        }
+        let mut items = Vec::new();
+        for n in 0..np {
+            let len = rng.range(1, 40) as usize;
+            let d = hex(&rng.bytes(len));
+            let tree = kinds[n as usize] == 't';
+            // data packs are normally not in the hot store at all
+            items.push(match rng.below(if tree { 6 } else { 9 }) {
+                0 | 1 => format!("{n}:{d}:~"),
+                2 => format!("{n}:{d}:{}", hex(&crate::util::unhex(&d).unwrap()[..len / 2])),
+                3 => format!("{n}:{d}:{d}"),
+                4 => format!("{n}:~:{d}"),
+                5 => format!("{n}:{d}:{d}00"),
+                _ => format!("{n}:{d}:~"),
+            });
+        }
+        let j = |v: &Vec<String>| if v.is_empty() { "-".to_string() } else { v.join("+") };
+        ops.push(format!("c16 repairp {} {}", files.iter().map(|(a, b)| format!("{}|{}", j(a), j(b))).collect::<Vec<_>>().join(";"), items.join(";")));
+    }
+    let n_repo = if thorough { 300 } else { 24 };
     for _ in 0..n_repo {
         stats.hit("repo-level");
         ops.push(format!("c16 repo {}", rng.below(1 << 32)));
@@ -593,7 +741,7 @@ pub fn generate(thorough: bool, rng: &mut Rng, ops: &mut Vec<String>, stats: &mu
     // directed histories: several backups with different trees, forget, a prune that only MARKS packs (tree packs end up
     // under `packs_to_delete`, still in both stores), then the hot store is lost (completely / partly) and repaired;
     // afterwards more commands on the repaired repository (deleting / recovering the marked packs, repair index, ...)
-    let n_hist = if thorough { 60 } else { 8 };
+    let n_hist = if thorough { 300 } else { 24 };
     for k in 0..n_hist {
         let mut st: Vec<&str> = Vec::new();
         for _ in 0..2 + rng.below(2) {
